@@ -364,10 +364,11 @@ def _evalcond(ctx: Ctx, f: FuncInfo, e: ast.expr, env: dict):
 def dispatch1(ctx: Ctx, chk) -> None:
     rule = "DISPATCH-1"
     chk.rule(rule, "in Gateway.listen every normal path from decoding a line to yielding it passes through the handler dispatch of the active protocol: no received message (whatever its ack flag, command or type) bypasses the handlers that produce the specified reactions and the version query")
-    listen = ctx.func("aiomysensors.gateway.Gateway.listen")
+    listen = ctx.inl(ctx.func("aiomysensors.gateway.Gateway.listen"))  # decode / dispatch helpers written out
     g = CFG(listen.node)
     disp = tables.dispatch_calls(ctx, listen, tables.DISPATCH)
-    loads = [n for n in ctx.own_nodes(listen) if isinstance(n, ast.Call) and isinstance(n.func, ast.Attribute) and n.func.attr == "load"]
+    _cn = Canon(ctx.I, listen, "")
+    loads = [n for n in ctx.own_nodes(listen) if isinstance(n, ast.Call) and _cn.canon(n.func).endswith("_schema.load")]
     yields = [n for n in ctx.own_nodes(listen) if isinstance(n, (ast.Yield, ast.YieldFrom))]
     if not loads or not yields:
         raise AnalysisError("DISPATCH-1: load / yield of Gateway.listen not found")
@@ -436,7 +437,7 @@ def writers1(ctx: Ctx, chk) -> None:
     cells = tables.handler_cells(ctx)
     wrapper_fqs = {I.wrapper_of(ctx.func(VWRAP)).fq, I.wrapper_of(ctx.func(MWRAP)).fq}
     flush_fqs = {f.fq for f in sb.flush_functions(ctx)}
-    writer_defs = {f for f in writers if f.fq not in wrapper_fqs and f.fq not in flush_fqs}
+    writer_defs = {f.fq for f in writers if f.fq not in wrapper_fqs and f.fq not in flush_fqs}
     for V in ctx.versions:
         want_cells = {("cmd", "req"): "handle_req", ("cmd", "set"): "handle_set", ("internal", _ival(ctx, V, "I_ID_REQUEST")): "handle_i_id_request", ("internal", _ival(ctx, V, "I_CONFIG")): "handle_i_config", ("internal", _ival(ctx, V, "I_TIME")): "handle_i_time"}
         if V.startswith("2."):
@@ -446,7 +447,7 @@ def writers1(ctx: Ctx, chk) -> None:
                 continue
             chk.instance(rule)
             chain = tables.chain_defs(ctx, cal, V) if cal is not None else []
-            has = [f for f in chain if f in writer_defs]
+            has = [f for f in chain if f.fq in writer_defs]
             nm = want_cells.get(cell)
             key = f"cell-writer::{cell}"
             if nm is not None:
